@@ -367,6 +367,9 @@ thread_local! { static OBSERVE_READERS: std::cell::Cell<bool> = const { std::cel
 thread_local! { static DISPOSE_ON_VALUE: std::cell::Cell<bool> = const { std::cell::Cell::new(false) }; }
 // mode `resourcerdw`: the observer of every reader boundary WRITES the dependency (to this value, once it differs) when its
 // boundary resolves ("panel shown, move on to the next item"): the write must find the delivered value published
+// mode `resourceself`: the fetch future itself, as its last step (after its await point), moves the dependency on to this
+// value (once it differs): the fetch is superseded WHILE IT IS FINISHING, too late for the abort to stop it
+thread_local! { static SELF_WRITE: std::cell::Cell<Option<u32>> = const { std::cell::Cell::new(None) }; }
 thread_local! { static WRITE_ON_RESOLVE: std::cell::Cell<Option<u32>> = const { std::cell::Cell::new(None) }; }
 
 /// `fl`: a subscriber of `is_loading` that moves an odd dependency on to the next value whenever a load is announced
@@ -387,11 +390,12 @@ fn run_resource_opt(dep0: u32, fb: Option<u32>, fl: bool, events: &[String]) -> 
             dep = Some(d);
             scope = Some(create_child_scope(|| {
                 let txs = txs.clone();
+                let selfw = SELF_WRITE.with(|o| o.get());
                 res = Some(create_isomorphic_resource(on(d, move || {
                     let v = d.get_untracked();
                     let (tx, rx) = oneshot::channel::<()>();
                     let k = { let mut t = txs.borrow_mut(); t.push(Some(tx)); t.len() as u32 };
-                    async move { let _ = rx.await; (k, v) }
+                    async move { let _ = rx.await; if let Some(c) = selfw { if d.get_untracked() != c { d.set(c); } } (k, v) }
                 })));
                 if fl {
                     let r = *res.as_ref().unwrap();
@@ -511,7 +515,12 @@ fn run_resource_opt(dep0: u32, fb: Option<u32>, fl: bool, events: &[String]) -> 
                 }
                 else if let Some(k) = e.strip_prefix('f') {
                     let k: u32 = k.parse().unwrap();
-                    if k == started && !completed {
+                    if k == started && !completed && SELF_WRITE.with(|o| o.get()).is_some_and(|c| cur_dep != c) {
+                        // the finishing fetch moved the dependency on: it is no longer the latest one and delivers nothing
+                        let c = SELF_WRITE.with(|o| o.get()).unwrap();
+                        cur_dep = c; started += 1; latest_dep = c; completed = false;
+                        if rd { for r in reader_exp.iter_mut() { if r.1 { *r = (true, false); } } }
+                    } else if k == started && !completed {
                         completed = true;
                         value = Some((k, latest_dep));
                         // the observers of the boundaries that this delivery releases write the dependency: a new fetch is
@@ -579,6 +588,14 @@ pub fn exec(line: &str) -> (String, Option<String>, bool) {
         let (o, v) = run_resource(d.parse().unwrap(), None, &evs);
         DISPOSE_ON_VALUE.with(|o| o.set(false));
         OBSERVE_READERS.with(|o| o.set(false));
+        (o, v, evs.len() >= 2)
+    } else if let Some(r) = rest.strip_prefix("resourceself ") {
+        let mut it = r.splitn(3, ' ');
+        let (d, c, evs) = (it.next().unwrap(), it.next().unwrap(), it.next().unwrap());
+        let evs: Vec<String> = if evs == "-" { vec![] } else { evs.split(',').map(|s| s.to_string()).collect() };
+        SELF_WRITE.with(|o| o.set(Some(c.parse().unwrap())));
+        let (o, v) = run_resource(d.parse().unwrap(), None, &evs);
+        SELF_WRITE.with(|o| o.set(None));
         (o, v, evs.len() >= 2)
     } else if let Some(r) = rest.strip_prefix("resourcerdw ") {
         let mut it = r.splitn(3, ' ');
@@ -804,7 +821,7 @@ pub fn generate(args: &Args) -> Vec<String> {
         perms.sort(); perms.dedup();
         for p in perms {
             l.push(format!("async suspense {sh} {}", p.join(",")));
-            if thorough || rng.chance(1, 4) {
+            if p.len() >= 2 && (thorough || rng.chance(1, 4)) {
                 let k = rng.below(p.len() - 1);
                 let mut q = p.clone();
                 if q[k] == q[k + 1] { continue; }
@@ -967,6 +984,7 @@ pub fn generate(args: &Args) -> Vec<String> {
             let mut wv = 10;
             let evs: Vec<String> = s.iter().map(|e| if *e == "w" { wv += 1; format!("w{wv}") } else { e.to_string() }).collect();
             l.push(format!("async resourcefb 7 1 {}", evs.join(",")));
+            l.push(format!("async resourceself 7 1 {}", evs.join(",")));
         }
         l.push("async resourcefb 1 1 f1,w11,f2,f3".into());
     }
@@ -1059,6 +1077,7 @@ pub fn generate(args: &Args) -> Vec<String> {
     for seq in ["f1,u,y,w11,f2", "f1,u,w11,y,f2", "u,y,f1,w11,f2", "f1,u,u,y,w11,y,w12,f3", "u,f1,y,w11,f2,u,w12,y,f3", "f1,u,w11+y,f2", "f1,u,y+w11,f2,w12,f3"] {
         l.push(format!("async resource 7 {seq}"));
         if !seq.contains('+') { l.push(format!("async resourcefb 7 1 {seq}")); }
+        if !seq.contains('+') && rng.chance(1, 2) { l.push(format!("async resourceself 7 {} {seq}", 11 + rng.below(3))); }
     }
     for _ in 0..(if thorough { 20_000 } else { 600 }) {
         let n = 3 + rng.below(8);
